@@ -619,7 +619,62 @@ def r8(ctx):
             ok = not always_passes(b, sites)
             ctx.inst(R, f"restore:{kid}<-{gid}", ok, b.term(sites[0])["s"], "restored on every path of the guard's drop" if ok else
                      f"`{gid}` restores `{kid}` only on some paths: when there was no outer value the thread-local keeps pointing at this host's state after the guard is gone")
-    ctx.floor(R, 3)
+    k = scoped_cell_writers(ctx, R)
+    ctx.inst(R, "scoped-cell:found", k >= 2, "", f"{k} accessors of guard-managed Cell thread-locals analysed" if k >= 2 else "fewer than 2 accessors of guard-managed Cell thread-locals found: re-derive")
+    ctx.floor(R, 5)
+
+
+CELL_WRITE = re.compile(r"^std::cell::Cell::(set|take|replace|swap|update)$|^std::thread::LocalKey::(set|take|replace)$")
+
+
+def scoped_cell_writers(ctx, R, keys=None):
+    """a Cell thread-local managed by an enter-guard is written only by the function that builds the guard (install) and by the guard's
+    Drop (restore): every other accessor of the key reads it (`Cell::get`).  Returns the number of accessors analysed."""
+    n = 0
+    for kid, accs in sorted(TABLE_ACCESSORS.items()):
+        if keys is not None and kid not in keys:
+            continue
+        guards = sorted(a for a in accs if a.endswith("as std::ops::Drop>::drop"))
+        if not guards:
+            continue
+        gtypes = {g[1:].split(" as ", 1)[0] for g in guards}
+        for acc in sorted(accs):
+            b = ctx.w.bodies.get(acc)
+            if not b or acc in guards:
+                continue
+
+            def names(a):
+                o = origin(b, a)
+                c = o.get("op") if o["k"] == "const" else None
+                if o["k"] == "ref":
+                    o2 = origin(b, {"c": o["p"]})
+                    c = o2.get("op") if o2["k"] == "const" else None
+                return {c.get("def"), c.get("static")} if c else set()
+            writes = []
+            cellkey = False
+            for bb, t in b.calls(re.compile(r"LocalKey<T>::with$|LocalKey::with$")):
+                if not any(kid in names(a) for a in t["args"]):
+                    continue
+                for cid in closure_args(b, t):
+                    for fb in ctx.w.family(cid):
+                        for bb2, t2 in fb.calls(re.compile(r"^std::cell::Cell::")):
+                            cellkey = True
+                            if CELL_WRITE.search(t2["f"]):
+                                writes.append((t2["f"].rsplit("::", 1)[1], t2["s"]))
+            for bb, t in b.calls(re.compile(r"^std::thread::LocalKey::(set|take|replace)$")):
+                if any(kid in names(a) for a in t["args"]):
+                    cellkey = True
+                    writes.append((t["f"].rsplit("::", 1)[1], t["s"]))
+            if not cellkey:
+                continue
+            n += 1
+            installs = any(s2["r"]["k"] == "agg" and s2["r"].get("adt") in gtypes for bb, i, s2 in b.all_stmts() if i != "term")
+            ok = not writes or installs
+            ctx.inst(R, f"scoped-cell:{kid}<-{acc}", ok, writes[0][1] if writes else b.span,
+                     ("installs the value and builds the guard that restores it" if writes else "reads the scoped value") if ok else
+                     f"`{acc}` writes the scoped thread-local `{kid}` ({writes[0][0]}) although it neither builds nor is the guard that manages it: the value installed "
+                     "for the current host step is gone (or replaced) for the rest of the step")
+    return n
 
 
 def run(ctx):
